@@ -155,6 +155,7 @@ static GLOBAL: alloc::Counting = alloc::Counting;
 use std::io::{BufRead, Write};
 fn main() {
     std::panic::set_hook(Box::new(|_| {}));
+    util::install_logger();
     let args: Vec<String> = std::env::args().collect();
     let f = std::io::BufReader::new(std::fs::File::open(&args[1]).unwrap());
     let mut w = std::io::BufWriter::new(std::fs::File::create(&args[2]).unwrap());
